@@ -454,9 +454,9 @@ Lemma orig_wrap_refuted : exists op a b,
   ~ meets (spec_binop op a b) (binop_eval (Orig Wrap) op a b).
 Proof.
   exists (Arith Add), (Int 2147483647), (Int 1).
-  repeat split; try discriminate.
-  - exists Add. cbn. repeat split; discriminate.
-  - vm_compute. auto.
+  split; [reflexivity|]. split; [reflexivity|]. split; [discriminate|]. split; [discriminate|].
+  split; [exists Add; cbn; repeat split; discriminate|]. split; [reflexivity|].
+  vm_compute. auto.
 Qed.
 
 Lemma orig_float_by_byte_zero_refuted : forall m, exists op a b,
@@ -465,10 +465,11 @@ Lemma orig_float_by_byte_zero_refuted : forall m, exists op a b,
   ~ meets (spec_binop op a b) (binop_eval (Orig m) op a b).
 Proof.
   intros m. exists (Arith Div), (Flt (F_of_Z 1)), (Byte 0).
-  repeat split; try discriminate.
-  - exists Div, (F_of_Z 1). auto.
-  - destruct m; vm_compute; reflexivity.
-  - destruct m; vm_compute; auto.
+  assert (E : binop_eval (Orig m) (Arith Div) (Flt (F_of_Z 1)) (Byte 0) = Ok (Flt (B754_infinity false)))
+    by (destruct m; vm_compute; reflexivity).
+  split; [exact I|]. split; [reflexivity|]. split; [discriminate|]. split; [discriminate|].
+  split; [exists Div, (F_of_Z 1); auto|]. split; [exact E|].
+  rewrite E. vm_compute. auto.
 Qed.
 
 Lemma orig_rem_min_by_m1_refuted : forall m, exists op a b,
@@ -476,7 +477,9 @@ Lemma orig_rem_min_by_m1_refuted : forall m, exists op a b,
   spec_binop op a b = Exact (Int 0) /\ binop_eval (Orig m) op a b = Panic.
 Proof.
   intros m. exists (Arith Rem), (Int (-2147483648)), (Int (-1)).
-  repeat split; try discriminate; destruct m; reflexivity.
+  split; [reflexivity|]. split; [reflexivity|]. split; [discriminate|]. split; [discriminate|].
+  split; [split; [reflexivity | cbn; split; [discriminate | reflexivity]]|].
+  split; [reflexivity | destruct m; reflexivity].
 Qed.
 
 Lemma orig_neg_wrap_refuted :
